@@ -488,10 +488,16 @@ Definition enc_hm (hm : hashmap) : list Z :=
   concat (map (fun k => enc_text k ++ match gm_get (hm_value hm) k with Some v => enc_val v | None => [9] end) (hm_order hm))
   ++ [gm_len (hm_value hm)].
 
+(* error codes other than the two index errors are not C12's subject: compared as "an error" *)
+Definition enc_res_cmp (r : res val) : list Z :=
+  match r with
+  | Err c => [1; if (c =? E_INDEX_RANGE) || (c =? E_KEY_NOT_FOUND) then c else 0]
+  | _ => enc_res r
+  end.
 Definition enc_list_step (s : res val * list val) : list Z :=
-  enc_res (fst s) ++ enc_val (VList (snd s)) ++ enc_text (val_text (VList (snd s))).
+  enc_res_cmp (fst s) ++ enc_val (VList (snd s)) ++ enc_text (val_text (VList (snd s))).
 Definition enc_dict_step (s : res val * hashmap) : list Z :=
-  enc_res (fst s) ++ enc_hm (snd s) ++ enc_opt_text (hm_text (snd s)).
+  enc_res_cmp (fst s) ++ enc_hm (snd s) ++ enc_opt_text (hm_text (snd s)).
 
 Definition run_list_case (c : list val * list lop) : list (list Z) :=
   map enc_list_step (arr_run true (snd c) (fst c)).
@@ -558,3 +564,20 @@ Definition run_dict_prog (c : list (text * val) * list dop) : list (list Z) :=
   | Some line => line :: prog_dict (snd c) hm
   | None => [[-1]]
   end.
+
+(* one checksum per step (keeps the printed output of the correspondence run small; on a mismatch the
+   driver re-evaluates that case with the full encodings): length, sum and position-weighted sum of the
+   entries (32 bits of each), packed into one integer.  Additions and small multiplications only (Z.modulo is slow in the VM). *)
+Fixpoint sum_row (l : list Z) (i a b : Z) : Z :=
+  match l with
+  | [] => Z.land i 65535 + Z.shiftl (Z.land a 4294967295) 16 + Z.shiftl (Z.land b 4294967295) 48
+  | x :: r => let y := x + 9007199254740992 in sum_row r (i + 1) (a + y) (b + (i + 1) * y)
+  end.
+Definition hash_row (l : list Z) : Z := sum_row l 0 0 0.
+Definition run_list_case_h (c : list val * list lop) : list Z := map hash_row (run_list_case c).
+Definition run_dict_case_h (c : list (text * val) * list dop) : list Z := map hash_row (run_dict_case c).
+(* one checksum per case *)
+Definition run_list_case_hh (c : list val * list lop) : Z := hash_row (run_list_case_h c).
+Definition run_dict_case_hh (c : list (text * val) * list dop) : Z := hash_row (run_dict_case_h c).
+Definition run_list_prog_h (c : list val * list lop) : list Z := map hash_row (run_list_prog c).
+Definition run_dict_prog_h (c : list (text * val) * list dop) : list Z := map hash_row (run_dict_prog c).
